@@ -31,6 +31,13 @@ CHECKS = {
             'fields, base compatible with it) for every ordered pair of the ~420 specs; containment is decided exactly '
             'inside the grammar because the pool holds a representative of every cell of every atomic predicate.',
             BASE_NOTE),
+    'C06': ('E2-enum', 'model_checking',
+            'bounded-exhaustive enumeration of a value universe; every law evaluated on all ordered pairs and triples',
+            'eq reflexive/symmetric/transitive, ne = not eq, eq => equal hash, operator agreement for opted-in classes, lt '
+            'never raises, trichotomy, gt = swapped lt, lt transitive, sorting never raises: on every pair and triple of a '
+            'universe of 110 (quick) / ~340 (thorough, incl. systematically generated lists, tuples, dicts in every key '
+            'order, objects) values.',
+            BASE_NOTE),
     'C07': ('E1-statespace', 'model_checking',
             'enumeration of (value, clone method) pairs + explicit-state BFS over mutation histories on either copy with a non-interference invariant',
             'Fidelity (equality, type, per-node flags and value specs, topology, identity disjointness, leaf/Ref sharing '
